@@ -68,8 +68,14 @@ func csvFaultDocs() []string {
 	for i := 0; i < 6; i++ {
 		long += fmt.Sprintf("%d,\"x%d\"\n", i, i)
 	}
-	return []string{"x\n1\n", "x,y\n1,a\n2,b\n", "x,y\n1,a\n2,b", "x,y\n\"a\nb\",1\n\"c\"\"d\",2\n", "x,y\r\n1,a\r\n2,b\r\n3,c\r\n", "x\n", "x,y", long}
+	return []string{"x\n1\n", "x,y\n1,a\n2,b\n", "x,y\n1,a\n2,b", "x,y\n\"a\nb\",1\n\"c\"\"d\",2\n", "x,y\r\n1,a\r\n2,b\r\n3,c\r\n", "x\n", "x,y", long,
+		// ragged documents: rows with more and with fewer fields than the header
+		"a,b\n1,2,3\n4,5\n", "a,b\n1,2\n3,4,5,6\n", "a,b,c\n1,2\n",
+		// long documents (index csvLongDocsFrom..): rows longer than the reader's 1 KiB / 2 KiB / 4 KiB buffer sizes
+		"id,s\n1," + strings.Repeat("p", 1100) + "\n2,q\n", "id,s,t\n1,x," + strings.Repeat("r", 2100) + "\n2,y,z\n3,w,v\n",
+		"id,s\n1,\"" + strings.Repeat("u", 4200) + "\"\n2,q\n"}
 }
+
 
 func jsonFaultDocs() []string {
 	return []string{`[{"a":1,"b":"x"}]`, `[{"a":1.5,"b":null},{"a":2,"b":"y"},{"a":3,"b":"z"}]`, `[]`, "[{\"a\":true}]\n",
@@ -246,6 +252,21 @@ func c15Run(ctx *core.Ctx) {
 			docs = jsonFaultDocs()
 		}
 		for di, doc := range docs {
+			if len(doc) > 1000 {
+				// long documents: every fault offset, whole / 7-byte / 1 KiB reads, two error values; no cut sets
+				for at := 0; at <= len(doc); at++ {
+					for _, with := range []int{0, 1} {
+						for _, ch := range []int{0, 7, 1024} {
+							for _, ek := range []int{0, 2} {
+								if with <= at && ctx.Mine() {
+									exec(faultCase{Entry: entry, Input: di, At: at, With: with, Chunk: ch, ErrKind: ek}, "reader-fault-long-row")
+								}
+							}
+						}
+					}
+				}
+				continue
+			}
 			for at := 0; at <= len(doc); at++ {
 				for _, with := range []int{0, 1, 2} {
 					if with > at {
